@@ -877,6 +877,11 @@ func (x *VC) storeAddr(a *Addr, v *Val, st *State) {
 			x.writeLog["cell:"+a.Cell.Name()] = true
 		}
 	case AIndex:
+		if _, isStruct := a.ElemT.Underlying().(*types.Struct); isStruct || len(a.Path) > 0 {
+			// elements of slices of structs are opaque handles in this model: the store is not tracked
+			x.note("store into an element of a slice of structs (%s) is not tracked (elements are opaque)", shortType(a.ElemT))
+			return
+		}
 		x.refuse("store through slice element (aliasing not modelled)")
 	case AGlobal:
 		s := x.sortOf(a.ElemT)
@@ -1034,6 +1039,19 @@ func (fr *Frame) unop(ins *ssa.UnOp, st *State, reach string) *Val {
 	case token.ARROW:
 		// channel receive: opaque value
 		x.note("channel receive at %s treated as arbitrary value", x.posOf(ins))
+		defer func() {
+			// ghost: count receives and remember the last received value (for specifications)
+			cn := x.comp("G|chan.recvs", "", "Int")
+			x.set(st, cn, "(+ 1 "+x.get(st, cn)+")")
+		}()
+		if !ins.CommaOk {
+			rv := x.fresh(ins.Type(), "recv", reach, st)
+			if rv.K == KScalar && rv.S == "Int" {
+				cl := x.comp("G|chan.lastRecv", "", "Int")
+				x.set(st, cl, rv.T)
+			}
+			return rv
+		}
 		if ins.CommaOk {
 			return &Val{K: KStruct, Fs: []*Val{x.fresh(ins.X.Type().Underlying().(*types.Chan).Elem(), "recv", reach, st), x.fresh(types.Typ[types.Bool], "recvok", reach, st)}}
 		}
